@@ -313,7 +313,8 @@ func main() {
 	flag.Parse()
 	seed := vh.SeedFromEnv()
 	rep := vh.NewReport("C12", *tier, seed, "pairs (absolute base IRI, IRI reference) generated from the RFC 3987 grammar (hierarchical and opaque schemes, empty/absent authority, userinfo, ports, IP literals, non-ASCII and pct-encoded hosts, empty and dot segments, %xx of either case, empty vs absent query/fragment), byte-level mutations of the reference, bounded-exhaustive path pairs over a 5-component alphabet; non-trivial = the reference is relative and has a dot, a slash, a query, a fragment or is empty")
-	g := &run{r: vh.NewRng(seed), rep: rep, tri: map[string][]string{}}
+	// Fork: vh.NewRng(k+1) is vh.NewRng(k) shifted by one draw; the first output is a well-mixed hash of the seed.
+	g := &run{r: vh.NewRng(seed).Fork(), rep: rep, tri: map[string][]string{}}
 	fs, err := vh.LoadFindings(*findings)
 	if err != nil {
 		fmt.Fprintln(os.Stderr, "findings:", err)
